@@ -7,7 +7,7 @@
 d=$1; prop=${2:-all}
 n=$(basename $d .diff)
 export GOFLAGS=-mod=mod GOPROXY=off GOSUMDB=off GOTOOLCHAIN=local
-BIN=/verif/bin/maddyverif
+BIN=${BIN:-/verif/bin/maddyverif}
 ok=""
 for base in $(git -C /repo log --format=%h -14); do
   wt=/tmp/rb_$n.$$
